@@ -214,18 +214,27 @@ def check(prog: Program, res: Result, tier: str) -> None:
     def neg(a: str) -> str:
         return a[1:] if a.startswith("!") else "!" + a
 
-    def subsumed(conds, want, f, order) -> bool:
-        """conds <= want, up to atoms that earlier guards of the same function already force: after `if A and B: raise`, a site that
-        requires A may also require not-B without covering fewer cases."""
+    def subsumed(conds, want, f, order, allowed=()) -> bool:
+        """conds <= want (each required atom follows from a reviewed one), up to atoms that cost no case:
+           * atoms that earlier guards of the same function already force: after `if A and B: raise`, a site that requires A may also
+             require not-B without covering fewer cases;
+           * atoms whose negation is the condition of a REVIEWED earlier normal exit: those cases never reached the guard on the reviewed
+             tree either (`if n == 0: return ...` followed by the guard  ~  `if n != 0: guard`)."""
         if conds <= want:
             return True
-        extra = conds - want
+        extra = {x for x in conds - want if not any(G.implies(w, x) for w in want)}
+        allowed_sets = [_parse(a[len("exit when "):]) for a in allowed if a.startswith("exit when ")]
         for x in extra:
             ok = False
             for r in f.raises:
                 if r.order < order and neg(x) in r.conds and (r.conds - {neg(x)}) <= (want | (conds - {x})):
                     ok = True
                     break
+            if not ok:
+                for al in allowed_sets:
+                    if neg(x) in al and (al - {neg(x)}) <= (want | (conds - {x})):
+                        ok = True
+                        break
             if not ok:
                 return False
         return True
@@ -241,7 +250,7 @@ def check(prog: Program, res: Result, tier: str) -> None:
             xs = _parse(x[len("exit when "):]) if x.startswith("exit when ") else frozenset()
             if xs and any(G.contradicts(a, b) for a in xs for b in want):
                 continue
-            if xs and any(al and al <= xs for al in allowed_sets):
+            if xs and any(al and G.implied_by(al, xs) for al in allowed_sets):
                 continue
             out.append(x)
         return out
@@ -262,7 +271,7 @@ def check(prog: Program, res: Result, tier: str) -> None:
             allowed = set(e.get("exits", []))
             best = None
             for r in f.raises:
-                if subsumed(r.conds, want, f, r.order):
+                if subsumed(r.conds, want, f, r.order, allowed):
                     extra = relevant_extra(r.exits_before, allowed, want)
                     if not extra:
                         best = ("OK", r, "")
@@ -306,7 +315,7 @@ def check(prog: Program, res: Result, tier: str) -> None:
             allowed = set(e.get("exits", []))
             verdict = None
             for key, conds, exits in f.vcalls:
-                if key == e["key"] and subsumed(conds, want, f, f.vcall_order.get((key, conds), 0)):
+                if key == e["key"] and subsumed(conds, want, f, f.vcall_order.get((key, conds), 0), allowed):
                     extra = relevant_extra(exits, allowed, want)
                     if not extra:
                         verdict = ("OK", "")
